@@ -3,7 +3,7 @@ import Solvor.Lp.Model
 import Solvor.Lp.Milp
 /-! Lp: line-protocol handler.
 
-request `["lp", c, A, b, minimize, eps, maxIter, tol, vtol, lpImpl, ipmImpl, ipmTolFeas, ipmTolObj, ipmResid]`
+request `["lp", c, A, b, minimize, eps, maxIter, tol, vtol, lpImpl, ipmImpl, ipmTolFeas, ipmTolObj, ipmResid, ipmUlp]`
   c, b : rationals `[num, den]`; A : rows of rationals; eps, tol… : rationals
   lpImpl / ipmImpl : `null` or `[status, x | null, obj | null]` (what solve_lp / solve_lp_interior returned)
 reply `[model, truth, lpChecks | null, ipmChecks | null]`
@@ -39,11 +39,11 @@ def Impl.parse? : Val → Option (Option Impl)
   | _ => none
 
 def handleLp (args : List Val) : Option String := do
-  let [c, A, b, mn, eps, mi, tol, vtol, lpI, ipI, itf, ito, ires] := args | none
+  let [c, A, b, mn, eps, mi, tol, vtol, lpI, ipI, itf, ito, ires, iulp] := args | none
   let c ← c.toRats?; let A ← A.toRatss?; let b ← b.toRats?; let mn ← mn.toBool?
   let eps ← eps.toRat?; let mi ← mi.toNat?; let tol ← tol.toRat?; let vtol ← vtol.toRat?
   let lpI ← Impl.parse? lpI; let ipI ← Impl.parse? ipI
-  let itf ← itf.toRat?; let ito ← ito.toRat?; let ires ← ires.toRat?
+  let itf ← itf.toRat?; let ito ← ito.toRat?; let ires ← ires.toRat?; let iulp ← iulp.toRat?
   let P := mkLP c A b mn
   let U : LP := ⟨A, b, c⟩            -- caller's objective, for `c·x = obj`
   let o := solveLp c A b mn eps mi
@@ -71,7 +71,7 @@ def handleLp (args : List Val) : Option String := do
     | some i => chk i tol tol (fun x => vecNear vtol x o.x)
   let ipC := match ipI with
     | none => Val.null
-    | some i => chk i itf ito (fun x => x.length == U.n && chkResidual U ires x)
+    | some i => chk i itf ito (fun x => x.length == U.n && chkResidual U ires iulp x)
   pure (Val.arr [model, truth, lpC, ipC]).render
 
 /-! request `["milp", c, A, b, ints, minimize, eps, tolObj, maxBox, impls]`
